@@ -181,6 +181,7 @@ def run_case(case):
     expect = Counter()       # obtain_counts semantics: (contig, bin_start, bin_end, sample) / with DA
     expect_da = Counter()
     expect_gbc = Counter()   # get_binned_counts semantics
+    expect_imp = Counter()   # with the mappability tag ignored (ignore_mp=True): every other filter still applies
     rid = 1
     nonproper = 0
     on_boundary = 0
@@ -247,6 +248,8 @@ def run_case(case):
                 expect_da[(da, name, b0, b1, cell)] += 1
                 if any(abs(site - k * bb) <= 1 for bb in boundaries for k in range(1, ln // bb + 2)):
                     on_boundary += 1
+            if is_r1 and not dup and not qcf and mapq >= min_mq:
+                expect_imp[(name, b0, b1, cell)] += 1
             if is_r1 and not dup and not qcf:
                 expect_gbc[(name, b0, cell)] += 1
             sites_list.append(site)
@@ -265,11 +268,16 @@ def run_case(case):
                         out[tuple(bin_id) + (sample,)] += n
             return out
         first = {}
-        for key_tags in (None, ['DA']):
-            for bpj in bpj_all:
+        for key_tags in (None, ['DA'], 'ignore_mp'):
+            ignore_mp = key_tags == 'ignore_mp'
+            if ignore_mp:
+                key_tags = None
+            for bpj in (bpj_all if not ignore_mp else r.sample(bpj_all, min(2, len(bpj_all)))):
                 threads = r.choice([1, 2, 3, 4, 8])
                 cmds = list(bbc.generate_commands(bam, bin_size=bin_size, bins_per_job=bpj, min_mq=min_mq, max_fragment_size=mfs,
-                                                  key_tags=key_tags, dedup=True, kwargs={}))
+                                                  key_tags=key_tags, dedup=True, kwargs={'ignore_mp': True} if ignore_mp else {}))
+                if ignore_mp:
+                    acc.count('option:ignore_mp')
                 r.shuffle(cmds)   # the order in which jobs are handed to the pool is part of the schedule
                 try:
                     with contextlib.redirect_stdout(io.StringIO()):
@@ -280,9 +288,9 @@ def run_case(case):
                 acc.evals += 1
                 acc.count('ret:obtain_counts')
                 got = flatten(res, key_tags is not None)
-                exp = expect_da if key_tags else expect
+                exp = expect_da if key_tags else (expect_imp if ignore_mp else expect)
                 acc.count('oracle:matrix_cells_compared', len(set(got) | set(exp)))
-                wit = {'config': cfg, 'bins_per_job': bpj, 'threads': threads, 'key_tags': key_tags, 'jobs': [c[3:6] for c in cmds][:20]}
+                wit = {'config': cfg, 'bins_per_job': bpj, 'threads': threads, 'key_tags': key_tags, 'ignore_mp': ignore_mp, 'jobs': [c[3:6] for c in cmds][:20]}
                 if got != exp:
                     miss = exp - got
                     extra = got - exp
@@ -297,7 +305,7 @@ def run_case(case):
                     acc.violate(mech, f'obtain_counts(bins_per_job={bpj}, threads={threads}, key_tags={key_tags}) differs from the independent count: '
                                       f'{sum(miss.values())} missing {list(miss.items())[:3]}, {sum(extra.values())} extra {list(extra.items())[:3]}; job width {job_w} ({cfg})',
                                 dict(wit, missing=[str(x) for x in list(miss.items())[:8]], extra=[str(x) for x in list(extra.items())[:8]]))
-                fk = 'da' if key_tags else 'plain'
+                fk = 'da' if key_tags else ('imp' if ignore_mp else 'plain')
                 if fk in first and first[fk][1] != got:
                     acc.violate('matrix-depends-on-job-split', f'bins_per_job={bpj} gives a different matrix than bins_per_job={first[fk][0]} ({cfg})', wit)
                 first.setdefault(fk, (bpj, got))
